@@ -4,7 +4,7 @@ Everything the model does not compute itself (hashes, ed25519, floats, utf-8, lo
 is answered here with the real libraries; the clock and token_bytes of the implementation are pinned
 so that both sides see the same values.
 """
-import hashlib, math, os, struct, subprocess, sys, json, random, time as _time
+import copy, hashlib, math, os, struct, subprocess, sys, json, random, time as _time
 
 REPO = os.environ.get('TS_REPO', '/repo')
 VERIF = os.path.dirname(os.path.dirname(os.path.abspath(__file__)))
@@ -369,6 +369,7 @@ F.run_tape = _run_tape_wrapper
 
 def impl_run_script(script, cache_vals, cfg):
     """run_script on the implementation; returns the canonical outcome line"""
+    cache_vals = copy.deepcopy(cache_vals)      # the caller's dictionary (also handed to the model) stays pristine
     log = Log()
     Pins.ridx = 0
     Pins.now = cfg.now
@@ -400,6 +401,7 @@ def impl_run_script(script, cache_vals, cfg):
 
 
 def impl_run_auth(scripts, cache_vals, cfg):
+    cache_vals = copy.deepcopy(cache_vals)
     log = Log()
     Pins.ridx = 0
     Pins.now = cfg.now
